@@ -470,15 +470,14 @@ class PoolManager(RequestMethods):
         if not isinstance(retries, Retry):
             retries = Retry.from_int(retries, redirect=redirect)
 
-        # Strip headers marked as unsafe to forward to the redirected location.
-        # Check remove_headers_on_redirect to avoid a potential network call within
-        # conn.is_same_host() which may use socket.gethostbyname() in the future.
-        if retries.remove_headers_on_redirect and not conn.is_same_host(
-            redirect_location
-        ):
+        # Strip headers marked as unsafe to forward to the redirected location,
+        # and the Host header: it names the target of the request just made
+        # (a ProxyManager adds it for every forwarded request).
+        if not conn.is_same_host(redirect_location):
+            unsafe_headers = retries.remove_headers_on_redirect | {"host"}
             new_headers = kw["headers"].copy()
             for header in kw["headers"]:
-                if header.lower() in retries.remove_headers_on_redirect:
+                if header.lower() in unsafe_headers:
                     new_headers.pop(header, None)
             kw["headers"] = new_headers
 
